@@ -24,6 +24,7 @@ package weightedroundrobin
 //@   opt purecalls inc
 //@   requires s != nil && len(s.weights) > 0
 //@   loop 1 invariant len(s.weights) == old(len(s.weights))
+//@   loop 1 invariant ncalls("inc") == 0 || !edfAccept(s.weights[lastval("inc") % Z(len(s.weights))], lastval("inc"), Z(len(s.weights)))
 //@   ensures 0 <= result && result < len(s.weights)
 //@   ensures Z(result) == lastval("inc") % Z(len(s.weights))
 //@   ensures edfAccept(s.weights[result], lastval("inc"), Z(len(s.weights)))
